@@ -130,7 +130,17 @@ class RealSpline:
             kw["min_derivative"] = MIN_DERIVATIVE
         return kw
 
-    def call(self, xs, inverse=False):
+    def call_transposed(self, xs, inverse=False):
+        """The same values as a genuinely non-contiguous 2-D tensor (the transpose of an [n, 2] array),
+        with the parameters laid out to match.  Returns like call(), for the first row."""
+        torch = self.torch
+        x = xs if isinstance(xs, torch.Tensor) else torch.tensor(xs, dtype=torch.float64).to(self.dtype)
+        n = x.shape[0]
+        x2 = torch.stack([x, x], dim=1).t()          # [2, n], strides (1, 2)
+        assert not x2.is_contiguous()
+        return self.call(x2, inverse=inverse, _rows=n)
+
+    def call(self, xs, inverse=False, _rows=None):
         """xs: list of floats (or a tensor).  Returns (outcome, y tensor, lad tensor) where outcome is
         'Value', 'InputOutsideDomain' or 'Crash:<ExcName>: msg'.  One call for the whole batch."""
         torch = self.torch
@@ -139,8 +149,10 @@ class RealSpline:
 
         p = self.par
         x = xs if isinstance(xs, torch.Tensor) else torch.tensor(xs, dtype=torch.float64).to(self.dtype)
-        n = x.shape[0]
+        n = x.shape[0] if _rows is None else _rows
         kw = self._params(n)
+        if _rows is not None:
+            kw = {k: (v.unsqueeze(0).expand(2, *v.shape).contiguous() if isinstance(v, torch.Tensor) else v) for k, v in kw.items()}
         fam = p["fam"]
         if p["tails"]:
             fn = {"linear": splines.unconstrained_linear_spline, "quadratic": splines.unconstrained_quadratic_spline, "cubic": splines.unconstrained_cubic_spline, "rq": splines.unconstrained_rational_quadratic_spline}[fam]
@@ -154,6 +166,8 @@ class RealSpline:
             return "InputOutsideDomain", None, None
         except Exception as e:  # noqa
             return "Crash:%s: %s" % (type(e).__name__, str(e)[:100]), None, None
+        if _rows is not None:
+            y, lad = y[0], lad[0]
         return "Value", y, lad
 
 
